@@ -1,8 +1,8 @@
 SPECIFICATION Spec
-CONSTANT Tier = "thorough"
+CONSTANT Tier = "quick"
 CONSTANT ChunkBytes = 4
 CONSTANT CMax = 2
-CONSTANT Variant = "faithful"
+CONSTANT Variant = "reserve_all"
 INVARIANT Refines
 INVARIANT ErrSound
 INVARIANT LimitSound
